@@ -84,6 +84,15 @@ def R1_plugin(ctx):
             v = nosite(deep_strip(tm.operand(c.args[1], c.bb)))
             kind = "keys" if contains(v, lambda s: s[0] == "call" and s[1].endswith("to_string")) else ("indices" if contains(v, lambda s: s[0] == "agg" and s[1].endswith("Range")) or contains(v, lambda s: s[0] == "call" and "collect" in s[1]) else "options")
             ctx.check(gated, "aligned:%s" % kind, "the %s vector is extended for members that are not arrays: keys, option lists and index lists get out of step" % kind, c.where(), detail="pushed only for array-valued members")
+            # the index list of an axis enumerates exactly the positions of that axis' own option list
+            vc = clean(tm.operand(c.args[1], c.bb))
+            ARR = clean(arr)
+            if kind == "options":
+                ctx.check(vc == ARR, "axis:options=the-array", "the option list of an axis is not the member's own array: %s" % short(vc)[:100], c.where(), detail="v.to_vec()")
+            elif kind == "indices":
+                rng = [x for x in subterms(vc) if x[0] == "agg" and x[1].endswith("ops::Range")]
+                okr = len(rng) == 1 and dict(rng[0][3]).get("start") == ("const", "usize", 0) and dict(rng[0][3]).get("end") == ("call", "std::vec::Vec::<T, A>::len", (ARR,)) and not [x for x in calls_in(vc) if re.search(r"Iterator>?::(take|skip|filter|step_by|rev|chain)$", x[1])]
+                ctx.check(okr, "axis:indices=0..len(array)", "the index list of an axis is not 0..len of the member's own array: %s" % short(vc)[:100], c.where(), detail="(0..v.len()).collect()")
         # empty array => Err
         emp = [c for c in b.calls() if c.callee and c.callee.endswith("::is_empty") and b.dominates(tsome, c.bb)]
         oke = False
